@@ -71,6 +71,7 @@ pub fn reset_env() {
     shim::set_atime_policy(shim::ATIME_RELATIME);
     shim::set_granularity_ns(1);
     shim::set_readdir_order(shim::ORDER_SORTED);
+    shim::set_dtype_unknown(false);
     shim::clock_virtual(base_time_ns(), 1_000_000);
     trigger_never();
     shard_draws(&[], Some(0));
